@@ -17,7 +17,10 @@ var zzArithOps = []string{"+", "-", "*", "/", "%", "&", "|", "<<", ">>", "==", "
 // zzArithClasses: 0 int64, 1 float64 (what script literals produce); 2.. the
 // signed integer and float kinds a host program can hand in, which enter the
 // tower by Go's conversion to int64 / float64.
-var zzArithClasses = []string{"int", "float", "goint", "int32", "int16", "int8", "float32"}
+// uint8 (what toByteSlice and make([]byte, n) put into a script's hands) and
+// uint64 below 2^63 (above it an unsigned value has no int64 reading: outside
+// this table) enter the tower as integers as well.
+var zzArithClasses = []string{"int", "float", "goint", "int32", "int16", "int8", "float32", "uint8", "uint64"}
 
 // zzNumOperand returns a symbolic number of class c and its float64 / int64
 // views.
@@ -41,6 +44,13 @@ func zzNumOperand(c int) (v interface{}, isInt bool, i int64, f float64) {
 	case 6:
 		g := zz.Float32()
 		return g, false, 0, float64(g)
+	case 7:
+		n := zz.Uint8()
+		return n, true, int64(n), float64(int64(n))
+	case 8:
+		n := zz.Uint64()
+		zz.Assume(n < 1<<63)
+		return n, true, int64(n), float64(int64(n))
 	}
 	f = zz.Float64()
 	return f, false, 0, f
@@ -228,10 +238,10 @@ func ZZ_C05_string_concat() {
 }
 
 var zzNumPool = []interface{}{int64(0), int64(-1), int64(4096), int64(9007199254740993), int64(-9223372036854775808),
-	float64(0.1), float64(1e21), float64(-2.5), float64(100000), float64(1e6)}
+	float64(0.1), float64(1e21), float64(-2.5), float64(100000), float64(1e6), uint8(65), uint64(7), int32(-3), uint16(300)}
 
 // zzGoFormat: Go's default formatting of the pool members (fmt %v).
-var zzNumPoolText = []string{"0", "-1", "4096", "9007199254740993", "-9223372036854775808", "0.1", "1e+21", "-2.5", "100000", "1e+06"}
+var zzNumPoolText = []string{"0", "-1", "4096", "9007199254740993", "-9223372036854775808", "0.1", "1e+21", "-2.5", "100000", "1e+06", "65", "7", "-3", "300"}
 
 // ZZ_C05_string_number: string + number and number + string concatenate
 // with the number in Go's default formatting (concrete pool).
@@ -253,7 +263,12 @@ func ZZ_C05_string_number() {
 func ZZ_C05_string_repeat() {
 	s := zz.SymString(zz.Choose(3))
 	n := zz.Choose(5) - 1
-	rv, err := zzEval(env.NewEnv(), zzBinOp("*", zzLit(s), zzLit(int64(n))))
+	var count interface{} = int64(n)
+	if n >= 0 {
+		// the count may be of any integer kind
+		count = []interface{}{int64(n), int(n), int32(n), int16(n), int8(n), uint8(n), uint64(n), uint(n)}[zz.Choose(8)]
+	}
+	rv, err := zzEval(env.NewEnv(), zzBinOp("*", zzLit(s), zzLit(count)))
 	if n < 0 {
 		zz.Assert(err != nil, "C05.string*n/negative-is-error")
 		return
